@@ -71,8 +71,7 @@ UNIT = {
             'requires': ['__CPROVER_is_fresh(stack, sizeof(*stack))', '__CPROVER_is_fresh(cycleList, sizeof(*cycleList))', '__CPROVER_is_fresh(cycleItems, sizeof(*cycleItems))', '__CPROVER_is_fresh(predecessorGraph, 1)',
                          '__CPROVER_is_fresh(__seg_exit, sizeof(int))', 'VEC_OKN(*stack, struct WorkItem, %d)' % (SD + 1), 'VEC_OKN(*cycleList, struct Rule *, %d)' % (SD + 1),
                          GRAPH, '%s >= 1 && %s <= %d' % (N, N, SD)] + INV + [
-                         # a path of pairwise distinct rules over NN rules: the stack cannot be deeper (this is what bounds the search)
-                         '%s <= NN' % M],
+                         ],
             'assigns': ['g_view', '*__seg_exit', 'stack->len', '__CPROVER_object_whole(stack->ptr)', 'cycleList->len', '__CPROVER_object_whole(cycleList->ptr)', '__CPROVER_object_whole(cycleItems)'],
             'ensures': [
                 # the search goes on: the invariant holds again, or the stack is empty (no cycle through the requested rule)
